@@ -159,6 +159,11 @@ Record step_obs := {
   so_c2s : obytes; so_s2c : obytes;  (* the client's session keys after the call *)
   so_cur_key : Z;                 (* identifier of the servers' current key right after the reply *)
   so_forged : list obytes;        (* cookies of forged datagrams that reached the client during the call *)
+  so_nforwarded : Z;              (* how many times the request reached the server (a network may duplicate it) *)
+  so_nreplies : Z;                (* how many replies the server sent in all *)
+  so_extra : list (obytes * bool * list cookie_facts);
+                                  (* the replies after the first (bytes, authenticates, cookies) *)
+  so_seen_before : list obytes;   (* cookies issued in this call that some client of this run had been given before *)
   so_nosend : Z                   (* nothing was sent although the client holds key exchange data:
                                      1 the deadline of the call passed before the request left,
                                      2 the key exchange names a server that is not an IP address; 0 otherwise *)
@@ -170,6 +175,16 @@ Record ostate := {
   os_known : list obytes      (* every cookie seen so far (sent, pooled, issued) *)
 }.
 Definition ostate0 : ostate := {| os_pool := []; os_sent := []; os_known := [] |}.
+
+(* the further replies to a duplicated request: each a good reply with cookies of its own *)
+Fixpoint extras_ok (req : obytes) (l : list (obytes * bool * list cookie_facts)) (kc2s ks2c : obytes)
+  (known : list obytes) (cur : Z) : bool :=
+  match l with
+  | [] => true
+  | (r, a, cfs) :: rest =>
+      reply_ok req r a cfs kc2s ks2c known cur &&
+      extras_ok req rest kc2s ks2c (map cf_bytes cfs ++ known) cur
+  end.
 
 Definition stored (o : step_obs) : Z := if so_intact o then olen (so_reply_cookies o) else 0.
 
@@ -210,7 +225,13 @@ Definition step_ok (s : ostate) (o : step_obs) : bool :=
         (if so_served o
          then reply_ok (so_req o) (so_reply o) (so_reply_auth o) (so_reply_cookies o) (so_c2s o) (so_s2c o)
                 (c :: os_known s) (so_cur_key o)
-         else true)
+         else true) &&
+        (* never more replies than requests that arrived; every further reply is as good, with
+           cookies of its own; no cookie of this call was ever handed out before *)
+        (so_nreplies o <=? so_nforwarded o) && Bool.eqb (so_served o) (0 <? so_nreplies o) &&
+        extras_ok (so_req o) (so_extra o) (so_c2s o) (so_s2c o)
+          (map cf_bytes (so_reply_cookies o) ++ c :: os_known s) (so_cur_key o) &&
+        match so_seen_before o with [] => true | _ => false end
     end
   else
     if so_nosend o =? 0 then
@@ -233,7 +254,9 @@ Definition step_next (s : ostate) (o : step_obs) : ostate :=
   if so_sent o then
     match request_cookie (so_req o) with
     | Some c => {| os_pool := so_pool_after o; os_sent := c :: os_sent s;
-                   os_known := c :: map cf_bytes (so_reply_cookies o) ++ so_pool_after o ++ os_known s |}
+                   os_known := c :: map cf_bytes (so_reply_cookies o) ++
+                               flat_map (fun e => map cf_bytes (snd e)) (so_extra o) ++
+                               so_pool_after o ++ os_known s |}
     | None => {| os_pool := so_pool_after o; os_sent := os_sent s; os_known := so_pool_after o ++ os_known s |}
     end
   else {| os_pool := so_pool_after o; os_sent := os_sent s; os_known := so_pool_after o ++ os_known s |}.
